@@ -41,6 +41,8 @@ type (
 		Forall bool
 		Vars   [][2]string // name, type
 		Body   CExpr
+		// Triggers: instantiation patterns, "{t1, t2} {t3}" after the binders (each group is one multi-pattern)
+		Triggers [][]CExpr
 	}
 )
 
@@ -81,7 +83,15 @@ func (c *CQuant) String() string {
 	for _, v := range c.Vars {
 		vs = append(vs, v[0]+" "+v[1])
 	}
-	return "(" + q + " " + strings.Join(vs, ", ") + " :: " + c.Body.String() + ")"
+	tr := ""
+	for _, g := range c.Triggers {
+		var ts []string
+		for _, t := range g {
+			ts = append(ts, t.String())
+		}
+		tr += " {" + strings.Join(ts, ", ") + "}"
+	}
+	return "(" + q + " " + strings.Join(vs, ", ") + tr + " :: " + c.Body.String() + ")"
 }
 
 type ctok struct {
@@ -94,7 +104,7 @@ func clex(s string) ([]ctok, error) {
 	var toks []ctok
 	i := 0
 	ops := []string{"<==>", "==>", "&&", "||", "==", "!=", "<=", ">=", "<<", ">>", "&^", "::", "++",
-		"+", "-", "*", "/", "%", "&", "|", "^", "<", ">", "!", "(", ")", "[", "]", ".", ",", ":", "?"}
+		"+", "-", "*", "/", "%", "&", "|", "^", "<", ">", "!", "(", ")", "[", "]", ".", ",", ":", "?", "{", "}"}
 	for i < len(s) {
 		c := s[i]
 		switch {
@@ -279,6 +289,20 @@ func (p *cparser) unary() CExpr {
 			}
 			break
 		}
+		for p.cur().val == "{" {
+			p.next()
+			var grp []CExpr
+			for {
+				grp = append(grp, p.expr(0))
+				if p.cur().val == "," {
+					p.next()
+					continue
+				}
+				break
+			}
+			p.expect("}")
+			q.Triggers = append(q.Triggers, grp)
+		}
 		p.expect("::")
 		q.Body = p.expr(0)
 		return q
@@ -363,6 +387,43 @@ func (p *cparser) postfix(x CExpr) CExpr {
 			x = &CIndex{x, lo}
 		default:
 			return x
+		}
+	}
+}
+
+// cexprIdents collects the identifiers of an expression (bound variables included).
+func cexprIdents(ex CExpr, out map[string]bool) {
+	switch x := ex.(type) {
+	case *CIdent:
+		out[x.Name] = true
+	case *CSel:
+		cexprIdents(x.X, out)
+	case *CIndex:
+		cexprIdents(x.X, out)
+		cexprIdents(x.I, out)
+	case *CSlice:
+		cexprIdents(x.X, out)
+		if x.Lo != nil {
+			cexprIdents(x.Lo, out)
+		}
+		if x.Hi != nil {
+			cexprIdents(x.Hi, out)
+		}
+	case *CCall:
+		for _, a := range x.Args {
+			cexprIdents(a, out)
+		}
+	case *CUnary:
+		cexprIdents(x.X, out)
+	case *CBinary:
+		cexprIdents(x.X, out)
+		cexprIdents(x.Y, out)
+	case *CQuant:
+		cexprIdents(x.Body, out)
+		for _, g := range x.Triggers {
+			for _, t := range g {
+				cexprIdents(t, out)
+			}
 		}
 	}
 }
